@@ -293,7 +293,7 @@ func r15bIn(c *RuleCtx, props []string, fn *ssa.Function, file ssa.Value, acqPos
 						bufw, _ = cs.(*ssa.Call)
 						continue
 					}
-					if callee != nil && c.p.InZap(callee) && callee.Parent() == nil && len(callee.Blocks) > 0 && ai < len(callee.Params) && isNamed(callee.Params[ai].Type(), "os", "File") && depth < 2 {
+					if callee != nil && c.p.InZap(callee) && callee.Parent() == nil && len(callee.Blocks) > 0 && ai < len(callee.Params) && (isNamed(callee.Params[ai].Type(), "os", "File") || isWriterInterface(callee.Params[ai].Type())) && depth < 2 {
 						if call, ok := cs.(*ssa.Call); ok && delegate == nil {
 							delegate, delegateParam = call, callee.Params[ai]
 							continue
@@ -1305,9 +1305,82 @@ func ruleR24() *Rule {
 							guards = append(guards, guard{surv})
 						}
 					})
+					// the other way of knowing that a document survives: the segment's drops bitmap (same
+					// position in the parallel table, same document) does not contain it, or there is none
+					type cguard struct{ head, dropped *ssa.BasicBlock }
+					var cguards []cguard
+					if outer, ok := ia.X.(*ssa.UnOp); ok {
+						if oia, ok := outer.X.(*ssa.IndexAddr); ok {
+							eachInstr(fn, func(b *ssa.BasicBlock, in2 ssa.Instruction) {
+								iff, ok := in2.(*ssa.If)
+								if !ok {
+									return
+								}
+								call, ok := iff.Cond.(*ssa.Call)
+								if !ok || len(call.Call.Args) != 2 {
+									return
+								}
+								f := call.Call.StaticCallee()
+								if f == nil || f.Name() != "Contains" || f.Pkg == nil || !strings.Contains(f.Pkg.Pkg.Path(), "roaring") {
+									return
+								}
+								bm, ok := call.Call.Args[0].(*ssa.UnOp)
+								if !ok {
+									return
+								}
+								bia, ok := bm.X.(*ssa.IndexAddr)
+								if !ok || !structEq(bia.Index, oia.Index, 0) || !structEq(stripConv(call.Call.Args[1]), stripConv(ia.Index), 0) {
+									return
+								}
+								head := b
+								// `drops[i] != nil && drops[i].Contains(d)`: the nil test is the head
+								if len(b.Preds) == 1 {
+									if piff, ok := b.Preds[0].Instrs[len(b.Preds[0].Instrs)-1].(*ssa.If); ok {
+										if pbo, ok := piff.Cond.(*ssa.BinOp); ok && pbo.Op == token.NEQ && (isNilConst(pbo.X) || isNilConst(pbo.Y)) && b.Preds[0].Succs[0] == b {
+											nx := pbo.X
+											if isNilConst(nx) {
+												nx = pbo.Y
+											}
+											if nu, ok := nx.(*ssa.UnOp); ok {
+												if nia, ok := nu.X.(*ssa.IndexAddr); ok && structEq(nia.X, bia.X, 0) && structEq(nia.Index, bia.Index, 0) {
+													head = b.Preds[0]
+												}
+											}
+										}
+									}
+								}
+								cguards = append(cguards, cguard{head, b.Succs[0]})
+							})
+						}
+					}
 					guarded := func(b *ssa.BasicBlock) bool {
 						for _, g := range guards {
 							if g.survivor == b || g.survivor.Dominates(b) {
+								return true
+							}
+						}
+						for _, g := range cguards {
+							if !(g.head.Dominates(b)) || b == g.head {
+								continue
+							}
+							// not reachable from the "contained" side without coming back to the test
+							seen := map[*ssa.BasicBlock]bool{g.head: true}
+							work := []*ssa.BasicBlock{g.dropped}
+							hit := false
+							for len(work) > 0 {
+								x := work[len(work)-1]
+								work = work[:len(work)-1]
+								if seen[x] {
+									continue
+								}
+								seen[x] = true
+								if x == b {
+									hit = true
+									break
+								}
+								work = append(work, x.Succs...)
+							}
+							if !hit {
 								return true
 							}
 						}
@@ -1323,6 +1396,9 @@ func ruleR24() *Rule {
 							if (x.Op == token.EQL || x.Op == token.NEQ) && (isSentinelConst(x.X) || isSentinelConst(x.Y)) {
 								continue // the test itself
 							}
+							if x.Op == token.EQL || x.Op == token.NEQ {
+								continue // compared for equality with something: a check, not a use as a document number
+							}
 							if !guarded(x.Block()) {
 								okc = false
 								w = append(w, "unguarded use: "+describeInstr(p, x))
@@ -1335,6 +1411,9 @@ func ruleR24() *Rule {
 								}
 							}
 						default:
+							if _, isMI := r.(*ssa.MakeInterface); isMI && failingContext(p, r, 0) {
+								continue // formatted into the message of an error that is being returned
+							}
 							if !guarded(r.Block()) {
 								okc = false
 								w = append(w, "unguarded use: "+describeInstr(p, r))
@@ -1795,4 +1874,18 @@ func rangeIndexOf(v ssa.Value) (*ssa.Phi, bool) {
 		return nil, false
 	}
 	return ph, ph.Comment == "rangeindex" || true
+}
+
+// isWriterInterface: an interface type with a Write method (io.Writer and wider).
+func isWriterInterface(t types.Type) bool {
+	it, ok := t.Underlying().(*types.Interface)
+	if !ok {
+		return false
+	}
+	for i := 0; i < it.NumMethods(); i++ {
+		if it.Method(i).Name() == "Write" {
+			return true
+		}
+	}
+	return false
 }
